@@ -380,6 +380,7 @@ int main(int argc, char* const* argv)
         CScript* script = script_ptrs[siter];
         const std::string& header = script_headers[siter];
         if (header != "") script_lines[i++] = strdup(header.c_str());
+        if (has_p2sh && script == &p2sh_script) p2sh_lines_start = i;
         it = script->begin();
         while (script->GetOp(it, opcode, vchPushValue)) {
             // build the line in a string: a 520 byte push is 1040 hex characters, more than a fixed 1024 byte buffer holds
